@@ -302,12 +302,52 @@ pub struct ReplayFile {
 }
 
 /// Minimise, re-confirm, write the replay file. Returns its path and the file content.
+pub fn hang_limit_s() -> u64 {
+    std::env::var("HPOSIM_HANG_LIMIT_S").ok().and_then(|v| v.parse().ok()).unwrap_or(HANG_LIMIT_S)
+}
+
 /// Does `hposim replay <path>` in a FRESH process report the recorded class?
 fn confirms_in_fresh_process(path: &str, class: &str) -> bool {
     let Ok(exe) = std::env::current_exe() else { return false };
-    let Ok(o) = Command::new(exe).arg("replay").arg(path).stderr(Stdio::null()).output() else { return false };
+    // a run takes milliseconds: for the confirmation 20 s without progress are decisive for `hang`
+    let Ok(o) = Command::new(exe).arg("replay").arg(path).env("HPOSIM_HANG_LIMIT_S", "20").stderr(Stdio::null()).output() else { return false };
     let text = String::from_utf8_lossy(&o.stdout);
-    o.status.code() == Some(1) && text.lines().any(|l| l.trim() == format!("class={class}"))
+    o.status.code() == Some(1) && text.lines().any(|l| l.trim() == format!("class={class}") || l.trim().starts_with(&format!("class={class}:")))
+}
+
+/// Make sure the replay file reproduces in a fresh process; if the scenario alone does not, prepend the shortest
+/// reproducing suffix of the runs its worker had executed before it (state kept by the library between ontologies).
+pub fn ensure_reproducible(path: &str, rf: &mut ReplayFile, workers: u64) -> bool {
+    let write = |rf: &ReplayFile| serde_json::to_string_pretty(rf).ok().and_then(|t| std::fs::write(path, t).ok()).is_some();
+    if confirms_in_fresh_process(path, &rf.class) {
+        return true;
+    }
+    if workers == 0 {
+        return false;
+    }
+    let k = rf.run % workers;
+    let full: Vec<u64> = (0..).map(|i| k + i * workers).take_while(|r| *r < rf.run).collect();
+    let mut len = 1usize;
+    loop {
+        let take = len.min(full.len());
+        rf.history = full[full.len() - take..].to_vec();
+        if !write(rf) {
+            return false;
+        }
+        if take > 0 && confirms_in_fresh_process(path, &rf.class) {
+            rf.detail = format!("{} [occurs only after {} earlier run(s) in the same process: the library keeps state between ontologies]", rf.detail, rf.history.len());
+            write(rf);
+            return true;
+        }
+        if take == full.len() {
+            break;
+        }
+        len *= 4;
+    }
+    rf.history = vec![];
+    rf.detail = format!("{} [NOT reproduced in a fresh process, neither alone nor after the worker's earlier runs]", rf.detail);
+    write(rf);
+    false
 }
 
 pub fn make_replay(prop: &str, seed: u64, found: &Found, thorough: bool, workers: u64) -> Option<(String, ReplayFile)> {
@@ -359,37 +399,7 @@ pub fn make_replay(prop: &str, seed: u64, found: &Found, thorough: bool, workers
         rf.minimised_size = size0;
         rf.trace = vec![];
         std::fs::write(&path, serde_json::to_string_pretty(&rf).ok()?).ok()?;
-        if !confirms_in_fresh_process(&path, &rf.class) && workers > 0 {
-            let k = found.run % workers;
-            let full: Vec<u64> = (0..).map(|i| k + i * workers).take_while(|r| *r < found.run).collect();
-            let mut best: Option<Vec<u64>> = None;
-            let mut len = 1usize;
-            loop {
-                let take = len.min(full.len());
-                let hist = full[full.len() - take..].to_vec();
-                rf.history = hist.clone();
-                std::fs::write(&path, serde_json::to_string_pretty(&rf).ok()?).ok()?;
-                if confirms_in_fresh_process(&path, &rf.class) {
-                    best = Some(hist);
-                    break;
-                }
-                if take == full.len() {
-                    break;
-                }
-                len *= 4;
-            }
-            match best {
-                Some(h) => {
-                    rf.history = h;
-                    rf.detail = format!("{} [occurs only after {} earlier run(s) in the same process: the library keeps state between ontologies]", rf.detail, rf.history.len());
-                }
-                None => {
-                    rf.history = vec![];
-                    rf.detail = format!("{} [NOT reproduced in a fresh process, neither alone nor after the worker's earlier runs]", rf.detail);
-                }
-            }
-            std::fs::write(&path, serde_json::to_string_pretty(&rf).ok()?).ok()?;
-        }
+        ensure_reproducible(&path, &mut rf, workers);
     }
     Some((path, rf))
 }
